@@ -81,7 +81,11 @@ def altsOf (cc : String) : List Str :=
 
 /-- `Identity.Normalize` for the regime `cc` (the regime's own country code;
     EL for Greece), identity country `country`, code `code`:
-    (new country, new code).  `registered` says whether the regime's
+    (new country, new code).  Greece overwrites the country with `EL` *before* the code is
+    cleaned (library fix `d935db9`; until then the identity's own country was trimmed and the
+    country rewritten afterwards, so `EL…` under country `GR` lost its prefix only on the
+    second pass); India cleans first and overwrites afterwards (its regime has the single
+    country code `IN`, which is also the alternative code it passes).  `registered` says whether the regime's
     `RegimeDef` carries a `Normalizer:` entry (regenerated fact; BR does not
     at the time of writing, `RegimeDef.NormalizeObject` is then a no-op). -/
 def normalize (cc : String) (country : Str) (code : Str) (registered : Bool := true) : Str × Str :=
@@ -90,7 +94,9 @@ def normalize (cc : String) (country : Str) (code : Str) (registered : Bool := t
   | "MX" => (country, mxNormalize code)
   | "CH" => (country, chStripSuffix (normalizeIdentity country [] code))
   | "FR" => (country, if code.isEmpty then code else frExtend (normalizeIdentity country [] code))
-  | "EL" => (['E','L'], normalizeIdentity country (altsOf "EL") code)
+  -- regimes/gr: `tID.Country = "EL"` comes first, then `tax.NormalizeIdentity(tID, l10n.GR)`:
+  -- the country whose prefix is trimmed is EL whatever the identity said (GR or EL)
+  | "EL" => (['E','L'], normalizeIdentity ['E','L'] (altsOf "EL") code)
   | "IN" => (['I','N'], normalizeIdentity country (altsOf "IN") code)
   | "GB" => (country, normalizeIdentity country (altsOf "GB") code)
   | _ => (country, normalizeIdentity country [] code)
